@@ -49,6 +49,9 @@ TYPES = {
     # subscription of absent keys itself (defaultdict)
     "tdopt": ("TDopt", [({"p": 1}, {"p": 1}), (collections.defaultdict(lambda: "FALLBACK", {"q": "s"}), {"q": "s"}), ({}, {}),
                         (collections.defaultdict(lambda: 7, {}), {})], lambda n: ("{'p': %d}" % n, {"p": n})),
+    # TypedDict inheritance with mixed totality (also under PEP 563): a key keeps the requiredness of the class that DECLARES it
+    "tdinh": ("TDinh", [({"q": "s"}, {"q": "s"}), ({"p": 1, "q": "t"}, {"p": 1, "q": "t"}), ({"q": "", "r": 5}, {"q": "", "r": 5})],
+              lambda n: ("{'q': 'd%d'}" % n, {"q": "d%d" % n})),
     "any": ("Any", [(None, None), ([1], [1])], lambda n: (repr(f"a{n}"), f"a{n}") if n % 2 else ("None", None)),
     "uoint": ("Union[int, str, None]", [(3, 3), ("s", "s"), (None, None)], lambda n: (str(n), n)),
 }
@@ -232,6 +235,8 @@ def run_case(seed, tier, rec, st):
                 body.append("    class Config(BaseConfig):")
                 body += [f"        {c}" for c in cfg]
             src += body or ["    pass"]
+        if any(f.get("tk") == "tdinh" for b in bodies for f in b) or any(o.get("tk") == "tdinh" for o in overrides):
+            src.insert(0, "class TDbase(TypedDict, total=False):\n    p: int\n    r: int\nclass TDinh(TDbase):\n    q: str")
         if any(f.get("tk") == "tdopt" for b in bodies for f in b) or any(o.get("tk") == "tdopt" for o in overrides):
             src.insert(0, "class TDopt(TypedDict, total=False):\n    p: int\n    q: str")
         try:
